@@ -65,32 +65,32 @@ def cs(s):
 # length, [(prefix, suffix)])
 # ---------------------------------------------------------------------------
 EXHAUSTIVE = [
-    ('is_comment', ' \tcCx1', 5, 7, [('', '')]),
-    ('has5', ' \tx\x0b', 7, 9, [('', '')]),
-    ('amp_cont', ' &$x\t', 6, 8, [('', '')]),
-    ('expand_tabs', ' \tx', 9, 11, [('', '')]),
-    ('strip_trailer', ' $&x', 6, 8, [('', '')]),
-    ('squeeze', ' \tx\n', 7, 9, [('', '')]),
-    ('words', ' \tx\ny', 6, 8, [('', '')]),
-    ('splitlines', 'a \n\r\x0b', 6, 8, [('', '')]),
+    ('is_comment', ' \tcCx1', 4, 6, [('', '')]),
+    ('has5', ' \tx\x0b', 6, 8, [('', '')]),
+    ('amp_cont', ' &$x\t', 5, 7, [('', '')]),
+    ('expand_tabs', ' \tx', 8, 10, [('', '')]),
+    ('strip_trailer', ' $&x', 5, 7, [('', '')]),
+    ('squeeze', ' \tx\n', 6, 8, [('', '')]),
+    ('words', ' \tx\ny', 5, 7, [('', '')]),
+    ('splitlines', 'a \n\r\x0b', 5, 7, [('', '')]),
     ('lower', ''.join(chr(k) for k in range(128)), 1, 2, [('', ''), ('aZ', '{')]),
-    ('blocks', 'a \n', 9, 11, [('', ''), ('message: \n', ''), ('Message:x\n\n', ''),
+    ('blocks', 'a \n', 8, 10, [('', ''), ('message: \n', ''), ('Message:x\n\n', ''),
                               ('t\n', '\n\n')]),
-    ('blocks', 'ac \n\t', 6, 7, [('', ''), (' MESSAGE:', '')]),
-    ('get_cards', 'c \n&x\t$', 5, 7, [('', ''), ('1', '')]),
-    ('get_cards', 'cC \n1', 6, 8, [('', '')]),
-    ('block_cards', 'c \n&x\t$', 5, 6, [('', ''), ('1 &\n', '')]),
-    ('surf_split', ' 1+*-p/.', 5, 6, [('', ''), ('*1 ', ''), ('1 -2 ', ' 5')]),
-    ('data_split', ' *m1.', 6, 8, [('', ''), ('imp:n', '')]),
-    ('split_options', ' )a*1(', 6, 7, [('', '')]),
-    ('void_split', ' 1(a', 7, 9, [('', '')]),
-    ('nonvoid_split', ' 1(a', 7, 9, [('', ''), ('1 1 ', '')]),
-    ('likebut_split', ' 1lLikebutBU', 4, 5, [('', ''), ('1 like', ''), ('1 LIKE 2', 'T u=1'),
+    ('blocks', 'ac \n\t', 5, 7, [('', ''), (' MESSAGE:', '')]),
+    ('get_cards', 'c \n&x\t$', 4, 6, [('', ''), ('1', '')]),
+    ('get_cards', 'cC \n1', 5, 7, [('', '')]),
+    ('block_cards', 'c \n&x\t$', 4, 6, [('', ''), ('1 &\n', '')]),
+    ('surf_split', ' 1+*-p/.', 4, 6, [('', ''), ('*1 ', ''), ('1 -2 ', ' 5')]),
+    ('data_split', ' *m1.', 5, 7, [('', ''), ('imp:n', '')]),
+    ('split_options', ' )a*1(', 5, 7, [('', '')]),
+    ('void_split', ' 1(a', 6, 8, [('', '')]),
+    ('nonvoid_split', ' 1(a', 6, 8, [('', ''), ('1 1 ', '')]),
+    ('likebut_split', ' 1lLikebutBU', 3, 5, [('', ''), ('1 like', ''), ('1 LIKE 2', 'T u=1'),
                                            ('2 like 1 b', '')]),
-    ('cell_split', ' 01a(', 6, 7, [('', ''), ('1 0 ', ''), ('1 1 ', ''), ('7 like 1 but', '')]),
-    ('cell_split', ' 0)*:i-', 4, 5, [('3 0 -1', ''), ('3 2 -1.0 (1', ''), ('3 00 ', ' imp:n=1')]),
-    ('opt_tokens', ' :=(Aa)', 5, 7, [('', ''), ('imp', '1')]),
-    ('front', 'a \nc', 6, 8, [('t\n', ''), ('t\n1 0 1\n\n', ''), ('message:\n\nt\n', '\n\na')]),
+    ('cell_split', ' 01a(', 5, 7, [('', ''), ('1 0 ', ''), ('1 1 ', ''), ('7 like 1 but', '')]),
+    ('cell_split', ' 0)*:i-', 3, 5, [('3 0 -1', ''), ('3 2 -1.0 (1', ''), ('3 00 ', ' imp:n=1')]),
+    ('opt_tokens', ' :=(Aa)', 4, 6, [('', ''), ('imp', '1')]),
+    ('front', 'a \nc', 5, 7, [('t\n', ''), ('t\n1 0 1\n\n', ''), ('message:\n\nt\n', '\n\na')]),
 ]
 
 # a line alphabet for get_cards / block_cards: all sequences up to a length
@@ -98,22 +98,28 @@ LINE_ALPHABET = ['1 x', '     y', 'c k', ' z &', 'w $ &', '& $ r', '\tq', 'C',
                  '    c', 'v & $ r', '    5', '   \t t', 'cx', 'x &  ']
 
 
+BUCKET = 4000       # strings per fingerprint bucket (about)
+
+
 def exhaustive_cases(tier):
-    '''(description, Coq case, python thunk) per bucket.'''
+    '''Buckets (name, fid, alphabet, free length, prefix, suffix): all strings
+    pre + w + suf with w over the alphabet, |w| <= the tier's maximum; a
+    length with more than BUCKET strings is split by leading characters.'''
     out = []
     for name, alpha, nq, nt, fixes in EXHAUSTIVE:
         nmax = nq if tier == 'quick' else nt
         fid = I.FID[name]
         for pre, suf in fixes:
             for n in range(0, nmax + 1):
-                # the two longest lengths are split by first character
-                heads = [''] if n < nmax - 1 or n == 0 else list(alpha)
-                for head in heads:
-                    out.append((name, fid, alpha, n - len(head), pre + head, suf))
+                k = 0
+                while len(alpha) ** (n - k) > BUCKET and k < n:
+                    k += 1
+                for head in itertools.product(alpha, repeat=k):
+                    out.append((name, fid, alpha, n - k, pre + ''.join(head), suf))
     return out
 
 
-def run_exhaustive(res, tier):
+def prepare_exhaustive(res, tier):
     buckets = exhaustive_cases(tier)
     cases, total = [], 0
     for name, fid, alpha, n, pre, suf in buckets:
@@ -122,34 +128,44 @@ def run_exhaustive(res, tier):
         cases.append(cpair(cn(fid), cs(alpha), cn(n), cs(pre), cs(suf), f'{fp}%uint63'))
         res.count('exhaustive:' + name, len(alpha) ** n)
     res.evaluations += total
-    bad, errs = common.run_case_files('c14_fp', HEADER,
-                                      FP_TYPE, 'check_fp', cases, chunk=8)
-    res.obligation(f'tie:exhaustive ({total} strings in {len(cases)} buckets, '
-                   f'{len(EXHAUSTIVE)} domains: model = implementation by '
-                   'fingerprint)', not bad and not errs,
-                   f'{len(bad)} buckets disagree {errs[:1]}')
-    # expand disagreeing buckets into explicit cases to name the inputs
-    for idx in bad[:6]:
-        name, fid, alpha, n, pre, suf = buckets[idx]
-        inputs = [pre + ''.join(t) + suf
-                  for t in itertools.product(alpha, repeat=n)][:6000]
-        explicit = [(fid, s, I.FUNS[fid][1](s)) for s in inputs]
-        bad2 = run_explicit(f'c14_fpx{idx}', explicit)
-        if not bad2:
-            res.violation('correspondence',
-                          f'fingerprint of {name} over {alpha!r}^{n} differs '
-                          'but no single input was isolated',
-                          {'theorem_or_correspondence': 'tie:exhaustive',
-                           'function': name, 'alphabet': alpha, 'n': n,
-                           'prefix': pre, 'suffix': suf}, found_input=False)
-        for k in bad2[:3]:
-            report_disagreement(res, 'tie:exhaustive', *explicit[k])
+
+    def job():
+        return common.run_case_files('c14_fp', HEADER, FP_TYPE, 'check_fp',
+                                     cases, chunk=max(4, len(cases) // 24),
+                                     jobs=JOBS)
+
+    def finish(result):
+        bad, errs = result
+        res.obligation(f'tie:exhaustive ({total} strings in {len(cases)} buckets, '
+                       f'{len(EXHAUSTIVE)} domains: model = implementation by '
+                       'fingerprint)', not bad and not errs,
+                       f'{len(bad)} buckets disagree {errs[:1]}')
+        # expand disagreeing buckets into explicit cases to name the inputs
+        for idx in bad[:4]:
+            name, fid, alpha, n, pre, suf = buckets[idx]
+            inputs = [pre + ''.join(t) + suf
+                      for t in itertools.product(alpha, repeat=n)][:6000]
+            explicit = [(fid, s, I.FUNS[fid][1](s)) for s in inputs]
+            bad2 = run_explicit(f'c14_fpx{idx}', explicit)
+            if not bad2:
+                res.violation('correspondence',
+                              f'fingerprint of {name} over {alpha!r}^{n} differs '
+                              'but no single input was isolated',
+                              {'theorem_or_correspondence': 'tie:exhaustive',
+                               'function': name, 'alphabet': alpha, 'n': n,
+                               'prefix': pre, 'suffix': suf}, found_input=False)
+            for k in bad2[:3]:
+                report_disagreement(res, 'tie:exhaustive', *explicit[k])
+    return job, finish
+
+
+JOBS = 8
 
 
 def run_explicit(name, triples, chunk=400):
     cases = [cpair(cn(fid), cs(inp), cs(out)) for fid, inp, out in triples]
     bad, errs = common.run_case_files(name, HEADER, 'N * string * string',
-                                      'check_ser', cases, chunk=chunk)
+                                      'check_ser', cases, chunk=chunk, jobs=JOBS)
     if errs:
         raise RuntimeError('generated case file failed: ' + errs[0][-800:])
     return bad
@@ -166,22 +182,30 @@ def report_disagreement(res, tie, fid, inp, out):
                    'theorem_or_correspondence': tie}, found_input=False)
 
 
-def run_lines(res, tier):
+def prepare_lines(res, tier):
     '''All sequences of lines from LINE_ALPHABET (get_cards, block_cards).'''
     nmax = 3 if tier == 'quick' else 4
     triples = []
     for n in range(1, nmax + 1):
         for seq in itertools.product(LINE_ALPHABET, repeat=n):
             text = '\n'.join(seq) + '\n'
-            fid = I.FID['get_cards'] if (len(triples) % 2) else I.FID['block_cards']
-            triples.append((fid, text, I.FUNS[fid][1](text)))
+            for name in ('get_cards', 'block_cards'):
+                fid = I.FID[name]
+                triples.append((fid, text, I.FUNS[fid][1](text)))
             res.seen(text, nontrivial=n >= 2)
-    res.count('lines:sequences', len(triples))
-    bad = run_explicit('c14_lines', triples, chunk=250)
-    res.obligation(f'tie:lines ({len(triples)} line sequences: get_cards / '
-                   'block_cards)', not bad, f'{len(bad)} disagreements')
-    for k in bad[:5]:
-        report_disagreement(res, 'tie:lines', *triples[k])
+    res.count('lines:sequences', len(triples) // 2)
+
+    def job():
+        return run_explicit('c14_lines', triples, chunk=500)
+
+    def finish(bad):
+        res.obligation(f'tie:lines ({len(triples)} calls: get_cards and '
+                       f'block_cards on all sequences of <= {nmax} lines from a '
+                       f'{len(LINE_ALPHABET)}-line alphabet)', not bad,
+                       f'{len(bad)} disagreements')
+        for k in bad[:5]:
+            report_disagreement(res, 'tie:lines', *triples[k])
+    return job, finish
 
 
 # ---------------------------------------------------------------------------
@@ -218,8 +242,8 @@ def malform(rng, text):
     return '\n'.join(lines), kind
 
 
-def run_layout(res, tier, rng):
-    n_decks = 40 if tier == 'quick' else 400
+def prepare_layout(res, tier, rng):
+    n_decks = 30 if tier == 'quick' else 300
     triples, meta = [], []
 
     def add(name, inp, nontrivial=True):
@@ -240,7 +264,14 @@ def run_layout(res, tier, rng):
         bad_text, kind = malform(rng, rng.choice(texts))
         res.count('layout:malformed:' + kind)
         for text in texts + [bad_text]:
-            add('front', text)
+            out = add('front', text)
+            if I.f_front_file(text) != out:
+                res.violation('correspondence', 'MIP(file).cards differs from '
+                              'the same calls on the text held in memory',
+                              {'input': {'function': 'front', 'fid': 20,
+                                         'text': text},
+                               'theorem_or_correspondence': 'tie:layout'},
+                              found_input=False)
             add('blocks', text)
             # card level on each block of the real splitter
             from MIP.mip.blocks import get_block_positions
@@ -266,12 +297,18 @@ def run_layout(res, tier, rng):
                     'text': triples[0][1], 'impl': triples[0][2]})
     # distinct cases only
     uniq = list(dict.fromkeys(triples))
-    bad = run_explicit('c14_layout', uniq, chunk=300)
-    res.obligation(f'tie:layout ({len(uniq)} distinct calls on {n_decks} decks '
-                   'x 3 layouts + 1 malformed: blocks, get_cards, splits, '
-                   'option tokens, front)', not bad, f'{len(bad)} disagreements')
-    for k in bad[:8]:
-        report_disagreement(res, 'tie:layout', *uniq[k])
+
+    def job():
+        return run_explicit('c14_layout', uniq, chunk=250)
+
+    def finish(bad):
+        res.obligation(f'tie:layout ({len(uniq)} distinct calls on {n_decks} '
+                       'decks x 3 layouts + 1 malformed: blocks, get_cards, '
+                       'splits, option tokens, front)', not bad,
+                       f'{len(bad)} disagreements')
+        for k in bad[:8]:
+            report_disagreement(res, 'tie:layout', *uniq[k])
+    return job, finish
 
 
 # ---------------------------------------------------------------------------
@@ -289,28 +326,66 @@ def outcome(conv):
     return ('err', conv.exc)
 
 
-def known_class(deck, layout_desc, base, new):
-    '''Narrow classes of the two reproduced defects (DESIGN §8 #13).'''
-    if layout_desc.get('stream') == 'fortran_surface_or_tr' \
-            and base[0] == 'ok' and new == ('err', 'ValueError'):
-        return 'fortran_spelling_surface_or_tr'
-    if layout_desc.get('stream') == 'float_e0' and base[0] == 'ok':
-        return 'normalize_float_e0'
+def fortran_only(tok):
+    '''A number spelling Fortran reads and Python's float() does not.'''
+    try:
+        float(tok)
+        return False
+    except ValueError:
+        pass
+    try:
+        impl.mcnp_float(tok)
+        return True
+    except ValueError:
+        return False
+
+
+def known_class(base_text, text, base, new, msg):
+    '''Narrow class of the reproduced defect DESIGN §8 #13: the rewrite differs
+    from the original in exactly one blank-separated token, that token is a
+    parameter of a surface card or of a TR card written in a spelling only
+    Fortran reads (5.0+0, 1.5d1), the original converts and the rewrite dies
+    with float()'s ValueError on that very token.'''
+    if base[0] != 'ok' or new != ('err', 'ValueError'):
+        return None
+    a, b = base_text.split(), text.split()
+    if len(a) != len(b):
+        return None
+    diff = [(x, y) for x, y in zip(a, b) if x != y]
+    if len(diff) != 1 or not fortran_only(diff[0][1]):
+        return None
+    old, tok = diff[0]
+    if impl.mcnp_float(old) != impl.mcnp_float(tok):
+        return None
+    if 'could not convert string to float' not in msg \
+            or repr(tok).lower() not in msg.lower():
+        return None
+    # the card holding the token: a surface card or a TR data card
+    from MIP.mip.blocks import get_block_positions
+    from MIP.mip.cards import get_cards
+    from MIP.mip.main import Card
+    dres = get_block_positions(text)
+    for key in 'sd':
+        block = text[slice(*dres[key][0])]
+        for lines, _, _ in get_cards(block, skipcomments=True):
+            words = Card(lines=lines).content().split()
+            if tok in words[1:]:
+                if key == 's' or words[0].lower().lstrip('*').startswith('tr'):
+                    return 'fortran_spelling_surface_or_tr'
     return None
 
 
-def compare(deck, base_text, base, text, layout, res, args=()):
+def compare(base_text, base, text, desc, numbers, res, args=()):
     conv = impl.convert(text, args, keep_stdout=False)
     new = outcome(conv)
-    desc = layout.describe()
     if new == base:
         return True
-    if base[0] == 'ok' and new[0] == 'ok' and layout.numbers:
+    if base[0] == 'ok' and new[0] == 'ok' and numbers:
         # number respellings may change the spelling of written numbers and
         # the names of compositions: compare the abstract content
         if D.canonical(base[1]) == D.canonical(new[1]):
             return True
-    cls = known_class(deck, desc, base, new)
+    cls = known_class(base_text, text, base, new, conv.msg)
     what = (f'rewrite [{", ".join(desc["used"])}] changes the output: '
             + (f'conversion fails with {new[1]}: {conv.msg[:120]}' if new[0] == 'err'
                else ('converted file differs' if base[0] == 'ok' else
@@ -325,9 +400,9 @@ def compare(deck, base_text, base, text, layout, res, args=()):
 
 
 def run_sweep(res, tier, rng):
-    n_decks = 70 if tier == 'quick' else 700
-    n_rewrites = 5 if tier == 'quick' else 8
-    n_ok = n_fail = 0
+    n_decks = 200 if tier == 'quick' else 2500
+    n_rewrites = 6
+    n_ok = n_fail = n_known = 0
     for k in range(n_decks):
         deck = D.gen_deck(rng)
         base_text = D.render(deck, None)
@@ -344,13 +419,27 @@ def run_sweep(res, tier, rng):
             res.seen(text, nontrivial=text != base_text)
             for used in layout.describe()['used']:
                 res.count('sweep:rewrite:' + used)
-            compare(deck, base_text, base, text, layout, res, args)
+            compare(base_text, base, text, layout.describe(), layout.numbers,
+                    res, args)
         if k == 0:
             res.sample({'deck': base_text, 'rewrite': text})
-    res.obligation(f'sweep: {n_decks} decks x {n_rewrites} random layouts, '
-                   f'{n_ok} converted, {n_fail} rejected (the rewrite must be '
-                   'rejected the same way)', n_ok > n_fail,
-                   'most generated decks must convert')
+        # separate, labelled stream: ONE surface / TR parameter of the
+        # canonical text in a Fortran-only spelling (known defect); nothing
+        # else is changed, so the class predicate stays narrow
+        if base[0] == 'ok' and k % 4 == 0:
+            text = D.render_one_fortran(deck, rng)
+            if text is not None:
+                n_known += 1
+                res.seen(text)
+                res.count('sweep:stream:fortran_surface_or_tr')
+                compare(base_text, base, text,
+                        {'used': ['number:fortran-surface-or-tr'],
+                         'stream': 'fortran_surface_or_tr'}, True, res, args)
+    res.obligation(f'sweep: {n_decks} decks x {n_rewrites} random layouts '
+                   f'(+ {n_known} single Fortran-only respellings of a surface '
+                   f'or TR parameter, labelled stream), {n_ok} converted, '
+                   f'{n_fail} rejected (the rewrite must be rejected the same '
+                   'way)', n_ok > n_fail, 'most generated decks must convert')
 
 
 # ---------------------------------------------------------------------------
@@ -358,36 +447,27 @@ def run_sweep(res, tier, rng):
 # ---------------------------------------------------------------------------
 WITNESS_BASE = ('witness\n1 1 {rho} -1 imp:n=1\n2 0 1 imp:n=0\n\n'
                 '1 1 so {r}\n\ntr1 {t} 0 0\nm1 1001 2 8016 {f}\n')
+WITNESSES = [
+    ('SO 5.0+0', dict(rho='-1.0', r='5.0+0', t='1.0', f='1.0')),
+    ('TR1 1.0+0 0 0', dict(rho='-1.0', r='5.0', t='1.0+0', f='1.0')),
+    ('SO 5.0d0', dict(rho='-1.0', r='5.0d0', t='1.0', f='1.0')),
+    # spellings the converter handles (densities, fractions): must stay fine
+    ('density -1.0+0', dict(rho='-1.0+0', r='5.0', t='1.0', f='1.0')),
+    ('density -1.0e0', dict(rho='-1.0e0', r='5.0', t='1.0', f='1.0')),
+    ('fraction 1.0d0', dict(rho='-1.0', r='5.0', t='1.0', f='1.0d0')),
+]
 
 
 def run_witnesses(res):
     base_text = WITNESS_BASE.format(rho='-1.0', r='5.0', t='1.0', f='1.0')
     base = outcome(impl.convert(base_text, keep_stdout=False))
-    for label, cls, fields in [
-            ('SO 5.0+0', 'fortran_spelling_surface_or_tr',
-             dict(rho='-1.0', r='5.0+0', t='1.0', f='1.0')),
-            ('TR1 1.0+0 0 0', 'fortran_spelling_surface_or_tr',
-             dict(rho='-1.0', r='5.0', t='1.0+0', f='1.0')),
-            ('density -1.0e0', 'normalize_float_e0',
-             dict(rho='-1.0e0', r='5.0', t='1.0', f='1.0')),
-            ('fraction 1.0e0 with atom density', 'normalize_float_e0',
-             dict(rho='0.1', r='5.0', t='1.0', f='1.0e0'))]:
-        orig = base_text if fields['rho'] == '-1.0' else \
-            WITNESS_BASE.format(rho=fields['rho'], r='5.0', t='1.0', f='1.0')
-        ref = base if orig == base_text else \
-            outcome(impl.convert(orig, keep_stdout=False))
+    for label, fields in WITNESSES:
         text = WITNESS_BASE.format(**fields)
-        new = outcome(impl.convert(text, keep_stdout=False))
         res.seen(text)
-        same = new == ref or (ref[0] == 'ok' and new[0] == 'ok' and
-                              D.canonical(ref[1]) == D.canonical(new[1]))
-        res.count('witness:' + cls + (':gone' if same else ':present'))
-        if not same:
-            res.violation('impl-violation',
-                          f'number respelling {label} changes the result: {new[:1]} '
-                          f'{new[1] if new[0] == "err" else ""}',
-                          {'input': {'deck': orig, 'rewrite': text}},
-                          cls=cls, found_input=True)
+        ok = compare(base_text, base, text,
+                     {'used': ['number respelling ' + label], 'stream': 'witness'},
+                     True, res)
+        res.count('witness:' + label + (':same' if ok else ':differs'))
 
 
 def run(res, tier, seed, proofs_ok):
@@ -395,18 +475,26 @@ def run(res, tier, seed, proofs_ok):
     res.rule = ('(a) every string up to a length over small alphabets for each '
                 're-implemented regex/str method; (b) all line sequences from '
                 'a 14-line alphabet; (c) abstract decks (cells with unions, '
-                'complements, universes/FILL, TRCL, LIKE BUT, surfaces with '
-                'TR and boundary marks, TR/M/IMP data cards) rendered '
+                'complements, universes/FILL, TRCL, LIKE BUT, lattices, surfaces '
+                'with TR and boundary marks, TR/M/IMP data cards) rendered '
                 'canonically and under random layouts (case, blanks, tabs, '
                 'continuation by 5+ blanks or &, c-comment lines, $ trailers, '
-                'message block, blank-line runs, IMP shorthand, number '
+                'message block, blank-line runs, IMP/FILL shorthand, number '
                 'spellings) + malformed texts; non-trivial = text differs from '
                 'the canonical rendering / >= 2 lines')
     run_witnesses(res)
-    run_exhaustive(res, tier)
-    run_lines(res, tier)
-    run_layout(res, tier, rng)
-    run_sweep(res, tier, rng)
+    # the Python side of the three ties first, then their Coq files run in the
+    # background while the sweep converts decks
+    from concurrent.futures import ThreadPoolExecutor
+    rng_layout = random.Random(rng.random())
+    rng_sweep = random.Random(rng.random())
+    phases = [prepare_exhaustive(res, tier), prepare_lines(res, tier),
+              prepare_layout(res, tier, rng_layout)]
+    with ThreadPoolExecutor(max_workers=3) as pool:
+        futures = [pool.submit(job) for job, _ in phases]
+        run_sweep(res, tier, rng_sweep)
+        for (_, finish), fut in zip(phases, futures):
+            finish(fut.result())
 
 
 def replay(path):
